@@ -10,7 +10,9 @@
     user-key range contains the key, newest file number first, then for each deeper level the single
     file chosen by `find_file` on the internal key, guarded by the `smallest.user_key <= key` test;
   * policies (which level a flush goes to, which files a compaction takes, where outputs are cut,
-    what exactly is dropped) are NOT modelled: `Step`/`stepOk` state the contracts they must meet.
+    what exactly is dropped) are not part of THIS file: `Step`/`stepOk` state the contracts they must meet.
+    The mechanisms themselves are `Model/Policy.lean` (file selection) and `Model/Compaction.lean` (drop loop);
+    `Props/CompactionCapstone.lean` proves that they establish `stepOk`.
 -/
 import LcdbModel.Model.InternalKey
 namespace Lcdb
